@@ -28,8 +28,10 @@ ASSUMPTIONS = [
     "reference: numpy boosts/rotations following the documented chain Bz(|p|/E) Ry(-theta) Rz(-phi) (vp/ref/frames.py)",
     "the momentum an angle pair denotes: both children final -> the named (helicity) child; exactly one child decays ->"
     " that child (doctest theta_0 = Theta(p1+p2)); both decay -> the named child (get_boost_chain_suffix docs)",
-    "directions are compared as unit vectors with tolerance 1e-9*cond + 3e-8*sqrt(cond), cond = product of the boost"
-    " gammas times E/|p| of the designated momentum; invariant masses via m^2 with tolerance 1e-12*E_total^2",
+    "directions are compared as unit vectors with tolerance 1e-9*cond + 3e-8*sqrt(cond) + 64 eps*cond2, cond = product of"
+    " the boost gammas times E/|p| of the designated momentum, cond2 the same with the gammas squared (rounding of"
+    " 1/sqrt(1-beta^2), dominant for events in a lab frame; there additionally 32x the measured change of the reference direction"
+    " under 4-ulp perturbations of the input momenta); invariant masses via m^2 with tolerance 1e-12*E_total^2",
 ]
 BUDGET = {
     "quick": {"examples": 320, "shards": 16, "cap_s": 150, "shrink_calls": 40, "shrink_s": 90, "case_timeout_s": 60},
@@ -59,6 +61,12 @@ def strategy(tier):
             "total": st.sampled_from([1.001, 1.05, 1.5, 3.0, 30.0, 1000.0]),
             "edge": st.sampled_from([0.3, 0.05, 1e-3, 1e-6]),
             "axis": st.sampled_from([False] * 7 + [True]),
+            # the decaying particle in flight: the whole event boosted from its rest frame to a "lab" frame
+            # (beta*gamma = 10^bg along a direction drawn from the seed, or along an axis)
+            "lab": st.one_of(st.none(), st.none(), st.fixed_dictionaries({
+                "bg": st.sampled_from([-1.0, 0.0, 0.5, 1.0, 2.0, 3.0, 4.0, 4.5]),
+                "dir": st.sampled_from(["random", "random", "random", "+z", "-z", "+x"]),
+            })),
             "cse": st.booleans(),
             "seed": st.integers(0, 2**31 - 1),
         })
@@ -80,6 +88,28 @@ def fixed_cases(tier):
                     "axis": False, "cse": True, "seed": 5,
                 })
     return cases
+
+
+def _boost_to_lab(momenta, lab, seed):
+    """All final-state momenta boosted with beta*gamma = 10^bg (numpy, independent of the library)."""
+    bg = 10.0 ** float(lab["bg"])
+    gamma = float(np.sqrt(1.0 + bg * bg))
+    if lab["dir"] == "random":
+        rng = np.random.default_rng([int(seed), 77])
+        v = rng.normal(size=3)
+        direction = v / np.linalg.norm(v)
+    else:
+        direction = {"+z": np.array([0.0, 0.0, 1.0]), "-z": np.array([0.0, 0.0, -1.0]), "+x": np.array([1.0, 0.0, 0.0])}[lab["dir"]]
+    out = {}
+    for k, p in momenta.items():
+        par = p[:, 1:] @ direction
+        e = gamma * p[:, 0] + bg * par
+        par_new = gamma * par + bg * p[:, 0]
+        q = p.copy()
+        q[:, 0] = e
+        q[:, 1:] = p[:, 1:] + np.outer(par_new - par, direction)
+        out[k] = q
+    return out, gamma
 
 
 def build_topology(n, td):
@@ -133,12 +163,36 @@ def run_case(desc) -> Result:  # noqa: C901, PLR0912, PLR0914, PLR0915
     final_masses = dict(enumerate(desc["masses"]))
     total = (sum(desc["masses"]) + 0.01) * desc["total"]
     momenta = generate_events(topologies[0], final_masses, total, 16, desc["seed"], edge=desc["edge"], axis_aligned=desc["axis"])
+    lab = desc.get("lab")
+    if lab:
+        momenta, gamma_lab = _boost_to_lab(momenta, lab, desc["seed"])
+        total = total * gamma_lab * 2
+        labels.append(f"lab_frame:bg=1e{lab['bg']:g}")
+        if lab["dir"] != "random":
+            labels.append("lab_boost_along_axis")
     got = under_test("evaluate_kinematics", fn, momenta)
     got = {k.name: np.asarray(v) for k, v in got.items()}
     e_tot = total
 
     # reference per registered topology
     refs = [frames.reference_kinematics(t, momenta) for t in registered]
+    # lab frame: the rest-frame directions are differences of numbers gamma^2 times larger, and how much of that
+    # survives in doubles depends on the event; measured by moving every input component by a few ulp
+    slack: dict[str, np.ndarray] = {}
+    if lab:
+        rng = np.random.default_rng([int(desc["seed"]), 99])
+        for _ in range(4):
+            # (absolute steps of 4 ulp of the energy: components that are exactly 0 in an axis-aligned event move too)
+            moved = {k: p + 4 * 2.2e-16 * p[:, :1] * rng.choice([-1.0, 1.0], size=p.shape) for k, p in momenta.items()}
+            for (values, _m), topo in zip(refs, registered):
+                values_p, _ = frames.reference_kinematics(topo, moved)
+                for nm in values:
+                    if nm.startswith("phi"):
+                        th = "theta" + nm[3:]
+                        with np.errstate(all="ignore"):
+                            d = np.linalg.norm(frames.unit_vector(values_p[nm], values_p[th]) - frames.unit_vector(values[nm], values[th]), axis=1)
+                        d = np.where(np.isfinite(d), d, np.inf)
+                        slack[nm] = np.maximum(slack.get(nm, 0.0), d)
     names = set()
     for values, _ in refs:
         names |= set(values)
@@ -167,7 +221,9 @@ def run_case(desc) -> Result:  # noqa: C901, PLR0912, PLR0914, PLR0915
         base_vec, base_meta, _ = candidates[0]
         kinds.add(base_meta["kind"])
         cond = np.nan_to_num(base_meta["cond"], nan=1e30, posinf=1e30)
-        tol = 1e-9 * cond + 3e-8 * np.sqrt(cond)
+        tol = 1e-9 * cond + 3e-8 * np.sqrt(cond) + 64 * 2.2e-16 * np.nan_to_num(base_meta["cond2"], nan=1e30, posinf=1e30)
+        if phi_name in slack:
+            tol = tol + 32 * slack[phi_name]
         usable = tol < 1e-2  # beyond that the direction is numerically undefined
         # acos(1 + 2e-16) = nan for a momentum exactly along +-z: rounding at a measure-zero
         # configuration (labelled); a nan anywhere else is a wrong value
@@ -186,7 +242,7 @@ def run_case(desc) -> Result:  # noqa: C901, PLR0912, PLR0914, PLR0915
         # (d) all registered topologies that define the name must agree
         for vec, meta, _topo in candidates[1:]:
             c2 = np.nan_to_num(meta["cond"], nan=1e30, posinf=1e30)
-            t2 = np.maximum(tol, 1e-9 * c2 + 3e-8 * np.sqrt(c2))
+            t2 = np.maximum(tol, 1e-9 * c2 + 3e-8 * np.sqrt(c2) + 64 * 2.2e-16 * np.nan_to_num(meta["cond2"], nan=1e30, posinf=1e30))
             u2 = usable & (t2 < 1e-2)
             diff = np.linalg.norm(vec - base_vec, axis=1)
             if np.any(diff[u2] > t2[u2]):
@@ -205,7 +261,7 @@ def run_case(desc) -> Result:  # noqa: C901, PLR0912, PLR0914, PLR0915
             # is it explained by the sibling's direction (F4)?
             explained = False
             if base_meta["kind"] == "both_decay":
-                explained = bool(np.all(np.linalg.norm(lib + base_vec, axis=1)[usable] <= 10 * tol[usable]))
+                explained = bool(np.all(np.linalg.norm(lib - base_meta["sibling_unit"], axis=1)[usable] <= 10 * tol[usable]))
             v = violation(
                 "angle_differs_from_documented_momentum", nontrivial, labels, variable=phi_name,
                 node_kind=base_meta["kind"], max_diff=float(np.max(diff[usable])), max_tol=float(np.max(tol[usable])),
@@ -217,8 +273,10 @@ def run_case(desc) -> Result:  # noqa: C901, PLR0912, PLR0914, PLR0915
             pending = pending or v  # known pattern (F4): keep searching behind it
     labels += sorted(f"node:{k}" for k in kinds)
 
-    # (c) three-body: polar helicity angle of the resonance decay = library's closed form
-    if n == 3:
+    # (c) three-body: polar helicity angle of the resonance decay = library's closed form (a statement about
+    # the decay in the rest frame of the decaying particle: in a lab frame the helicity axis of the isobar is its
+    # direction of flight *there*, which the Dalitz variables do not know)
+    if n == 3 and not lab:
         for topo in registered:
             for node in topo.nodes:
                 a, b = children_of(topo, node)
